@@ -46,23 +46,23 @@ type selCase struct {
 
 // op is a pending visible operation.
 type op struct {
-	kind  opKind
-	name  string // for nops: what it is (trace only)
-	ch    *vchan
-	val   any
-	mu    *Mutex
-	rw    *RWMutex
-	wg    *WaitGroup
-	once  *Once
-	cases []selCase
-	deflt bool
-	n     int // opChoose: alternatives
-	cost  int // opChoose: fault cost of non-zero answers
-	obj   *uint64
-	eff   func() // opNop: effect applied atomically when scheduled
+	kind   opKind
+	name   string // for nops: what it is (trace only)
+	ch     *vchan
+	val    any
+	mu     *Mutex
+	rw     *RWMutex
+	wg     *WaitGroup
+	once   *Once
+	cases  []selCase
+	deflt  bool
+	n      int // opChoose: alternatives
+	cost   int // opChoose: fault cost of non-zero answers
+	obj    *uint64
+	eff    func()           // opNop: effect applied atomically when scheduled
 	fpFn   func() []*uint64 // dynamic footprint (context cancel: the subtree)
-	ro     bool  // read-only on its objects (independent of other read-only operations on them)
-	global bool  // dependent with every other operation (partial-order reduction)
+	ro     bool             // read-only on its objects (independent of other read-only operations on them)
+	global bool             // dependent with every other operation (partial-order reduction)
 
 	// results
 	rval     any
@@ -136,10 +136,10 @@ type Options struct {
 	TimeHorizon int64  // virtual ns after which the clock is not advanced any more
 	Trace       bool   // record the operation trace with source positions
 	LazyStart   bool   // a new goroutine starts only when scheduled (its start is a visible step): explores
-	                   // delayed goroutine starts, e.g. a closure reading a loop variable the parent reassigns
-	Jitter      bool   // enumerate math/rand.Float64 answers (back-off jitter)
-	SpawnYield  bool   // the `go` statement is a scheduling point of the parent as well (others may run between
-	                   // two goroutine starts of one loop): exposes unsynchronised accesses around spawn loops
+	// delayed goroutine starts, e.g. a closure reading a loop variable the parent reassigns
+	Jitter     bool // enumerate math/rand.Float64 answers (back-off jitter)
+	SpawnYield bool // the `go` statement is a scheduling point of the parent as well (others may run between
+	// two goroutine starts of one loop): exposes unsynchronised accesses around spawn loops
 }
 
 // ThreadAlt describes one alternative of a scheduling decision.
@@ -162,7 +162,7 @@ type Chooser interface {
 
 type AliveG struct {
 	ID, Site, Name, Op, OpSite string
-	Enabled                   bool
+	Enabled                    bool
 }
 
 type Failure struct {
@@ -187,29 +187,29 @@ type Result struct {
 }
 
 type World struct {
-	gs      []*G
-	cur     *G // goroutine of the last transition
-	running *G // goroutine holding the baton
-	resumed []*G
-	chans   map[uintptr]*vchan
-	now     int64
-	timers  []*vtimer
-	tseq    int
-	ch      Chooser
-	altBuf  []ThreadAlt
-	opts    Options
-	fin     chan struct{}
-	ended   bool
-	res     Result
-	monitor uint64
-	Steps   int
-	vals    map[any]any
-	ctxSeq  int
-	invs    []func() *Failure
-	uuidSeq int
-	atomHash uint64
-	clockEpoch int
-	clockObj uint64
+	gs           []*G
+	cur          *G // goroutine of the last transition
+	running      *G // goroutine holding the baton
+	resumed      []*G
+	chans        map[uintptr]*vchan
+	now          int64
+	timers       []*vtimer
+	tseq         int
+	ch           Chooser
+	altBuf       []ThreadAlt
+	opts         Options
+	fin          chan struct{}
+	ended        bool
+	res          Result
+	monitor      uint64
+	Steps        int
+	vals         map[any]any
+	ctxSeq       int
+	invs         []func() *Failure
+	uuidSeq      int
+	atomHash     uint64
+	clockEpoch   int
+	clockObj     uint64
 	lastPartners []*G
 }
 
